@@ -296,6 +296,47 @@ def oracle(ctx, src, s, stats):
     return text
 
 
+def probe_history(ctx):
+    """The printed form is a function of the schema alone: the same schemas print identically before
+    and after other representations - including ones that RAISE part-way (a nested int beyond
+    CPython's int->str digit limit, a custom type whose __represent__ raises)."""
+    from d42.custom_type import CustomSchema, Props
+    from d42.representation import represent
+
+    class Boom(CustomSchema[Props]):
+        def __represent__(self, visitor, *, indent=0, **kwargs):
+            raise RuntimeError("boom")
+
+    r = ctx.rng
+    srcs = ["schema.dict({'a': schema.list([schema.int, schema.str.len(2)]), 'b': schema.dict({'c': schema.any(schema.none, schema.list(schema.int))})})",
+            "schema.list([schema.dict({'k': schema.list([schema.int(1), ...])}), ...])", "schema.any(schema.dict({'x': schema.int}), schema.list([schema.str]))"]
+    for _ in range(ctx.scale(20, 200)):
+        srcs.append(gen.gen_schema(r, 3, {"no_alias": True})[0])
+    schemas = [build(x) for x in srcs]
+    before = [(repr(s), represent(s, indent=4)) for s in schemas]
+    failing = ["schema.list([schema.int(10**4310)])", "schema.dict({'a': schema.list([schema.dict({'b': schema.int.min(10**4310)})])})",
+               "schema.list([schema.list([schema.list([schema.dict({'x': schema.int(-10**4400)})])])])"]
+    raised = 0
+    for fsrc in failing:
+        try:
+            repr(build(fsrc))
+        except Exception:  # noqa
+            raised += 1
+    for wrap in (lambda b: schema.list([b]), lambda b: schema.dict({"a": schema.list([schema.dict({"b": b})])})):
+        try:
+            repr(wrap(Boom()))
+        except Exception:  # noqa
+            raised += 1
+    for i, s in enumerate(schemas):
+        now = (repr(s), represent(s, indent=4))
+        if now != before[i]:
+            ctx.violation("the printed form of a schema changed after other (failing) representations: " + srcs[i][:80],
+                          {"kind": "history", "schema": srcs[i], "failing_representations_before": failing + ["<custom type whose __represent__ raises, nested>"],
+                           "observed": now[0][:400], "expected": before[i][0][:400]})
+            break
+    return len(schemas), raised
+
+
 def run(ctx):
     ds.extra_known(ctx)
     n = ctx.scale(2500, 30000)
@@ -337,6 +378,7 @@ def run(ctx):
             ctx.violation(f"repr text is not a DSL expression ({type(e).__name__}: {e}): {src}",
                           {"schema": src, "repr": text, "theorem_or_suite": "C06 correspondence (text shape)",
                            "expected": "an expression over schema / optional / UUID / datetime"})
+    stats["history_probe_schemas"], stats["history_probe_failing_reprs"] = probe_history(ctx)
     bad = common.eval_cases(ctx.workdir, "c06", terms, "rcase", "rcase_ok", extra_requires=REQUIRES)
     for i in bad[:10]:
         src, text = srcs[i]
